@@ -245,5 +245,13 @@ pub fn verif_zip_ranges(a0: usize, a1: usize, b0: usize, b1: usize) -> (r: Vec<(
 //@rewrite <<<wrap_and_assert!(Right, "(l) [*r*]", p, p_expected)>>> => <<<verif_wrap_right(p, p_expected, rc)>>>
 //@rewrite <<<(minus_start..m_extended_to).zip(plus_start..p_extended_to)>>> => <<<it3: verif_zip_ranges(minus_start, m_extended_to, plus_start, p_extended_to)>>>
 
+// the line length below which input lines are never cut, as a function of --wrap-max-lines (any number is accepted)
+impl WrapConfig {
+    //@ fn src/wrapping.rs WrapConfig::config_max_line_length
+    //@| ensures self.max_lines == 1 ==> r == max_line_length,  // @C07:without.wrapping.the.configured.maximal.line.length.applies
+    //@|         self.max_lines == 0 ==> r == 0,  // @C07:with.an.unlimited.number.of.wrapped.rows.no.input.line.is.cut
+    //@|         self.max_lines > 1 ==> r >= max_line_length,  // @C07:wrapping.never.lowers.the.maximal.line.length
+}
+
 } // verus!
 fn main() {}
